@@ -181,7 +181,7 @@ func main() {
 	runner.Main(runner.Config{
 		ID:    "C11",
 		Level: "model_checking",
-		Rule: "exhaustive small scope: every (block size 1..4, 1-3 old files over a 2-3 symbol alphabet, new content, preferred index) run through the real CreateSignature+ComputeDiff, ops replayed by a reference applier and by ApplySingle; scaled MaxDataOp variants (overlay builds) enumerate every new content up to the bound so that every buffer-wrap/flush phase occurs; real-scale family enumerates fresh-run lengths around MaxDataOp multiples x match positions. Non-trivial = the op list contains both a BLOCK_RANGE and a non-empty DATA op.",
+		Rule:  "exhaustive small scope: every (block size 1..4, 1-3 old files over a 2-3 symbol alphabet, new content, preferred index) run through the real CreateSignature+ComputeDiff, ops replayed by a reference applier and by ApplySingle; scaled MaxDataOp variants (overlay builds) enumerate every new content up to the bound so that every buffer-wrap/flush phase occurs; real-scale family enumerates fresh-run lengths around MaxDataOp multiples x match positions. Non-trivial = the op list contains both a BLOCK_RANGE and a non-empty DATA op.",
 		Assumptions: []string{
 			"byte values outside the small alphabets only appear in the real-scale family (seeded pseudo-random blocks)",
 			"scaled variants rebuild wsync with only the MaxDataOp constant changed (go build -overlay, /repo untouched)",
